@@ -101,7 +101,57 @@ fn parse_opt_hex(s: &str) -> Option<Option<u128>> {
 // ---------------------------------------------------------------------------------------
 // fast / lazy / perfect
 
-fn fast_line<F, Pr, const P: usize>(ctor: &str, tbl: &[u128], norm: Option<u128>) -> String
+/// decoder ops appended to a `quant.fast` line: `dec q`, `sweep lo hi stride` (quantiles `< 2^P`)
+fn dec_ops(p: u32, head: String, ops: &[Option<LazyOp>], dec: Option<&dyn Fn(u128) -> Triple>) -> String {
+    let mut outs = vec![head];
+    let total = pow2(p);
+    for op in ops {
+        let r = guarded(|| -> Option<String> {
+            let dec = dec?;
+            Some(match op.as_ref()? {
+                LazyOp::Dec(q) => {
+                    if *q >= total {
+                        return None;
+                    }
+                    let (s, c, pr) = dec(*q);
+                    format!("{:x} {:x} {:x}", s, c, pr)
+                }
+                LazyOp::Sweep(lo, hi, stride) => {
+                    if *stride == 0 || *hi >= total {
+                        return None;
+                    }
+                    let (mut q, mut cnt, mut dg) = (*lo, 0u128, DIGEST_INIT);
+                    while q <= *hi {
+                        let (s, c, pr) = dec(q);
+                        dg = digest_step(digest_step(digest_step(dg, s), c), pr);
+                        cnt += 1;
+                        q += *stride;
+                    }
+                    format!("{:x} {:x}", cnt, dg)
+                }
+                _ => return None,
+            })
+        });
+        match r {
+            Ok(Some(x)) => outs.push(x),
+            Ok(None) => {
+                outs.push("bad-op".into());
+                break;
+            }
+            Err(class) => {
+                outs.push(class.into());
+                break;
+            }
+        }
+    }
+    outs.join(" | ")
+}
+
+fn fast_head(p: u32, table: &[Triple]) -> String {
+    format!("ok {} mono=1 valid={}", show_triples(table), b01(table_valid(p, table)))
+}
+
+fn fast_line<F, Pr, const P: usize>(ctor: &str, tbl: &[u128], norm: Option<u128>, ops: &[Option<LazyOp>]) -> String
 where
     F: Fl + AsPrimitive<Pr>,
     Pr: BitArray + AsPrimitive<usize>,
@@ -110,19 +160,21 @@ where
     let probs: Vec<F> = tbl.iter().map(|&b| F::from_bits_u(b)).collect();
     let norm = norm.map(F::from_bits_u);
     let n = probs.len();
-    let table: Vec<Triple> = match ctor {
+    let tr = |x: (usize, Pr, Pr::NonZero)| -> Triple { (x.0 as u128, to_u128(x.1), to_u128(x.2.get())) };
+    match ctor {
         "cont" => {
             match ContiguousCategoricalEntropyModel::<Pr, Vec<Pr>, P>::from_floating_point_probabilities_fast(&probs, norm) {
-                Err(()) => return "rejected".into(),
-                Ok(m) => m
-                    .symbol_table()
-                    .map(|(s, c, p)| (s as u128, to_u128(c), to_u128(p.get())))
-                    .collect(),
+                Err(()) => "rejected".into(),
+                Ok(m) => {
+                    let table: Vec<Triple> = m.symbol_table().map(tr).collect();
+                    let dec = |q: u128| tr(m.quantile_function(from_u128(q)));
+                    dec_ops(P as u32, fast_head(P as u32, &table), ops, Some(&dec))
+                }
             }
         }
         "ncenc" => {
             match NonContiguousCategoricalEncoderModel::<usize, Pr, P>::from_symbols_and_floating_point_probabilities_fast(0..n, &probs, norm) {
-                Err(()) => return "rejected".into(),
+                Err(()) => "rejected".into(),
                 Ok(m) => {
                     let mut t: Vec<Triple> = (0..n)
                         .filter_map(|s| {
@@ -131,25 +183,25 @@ where
                         })
                         .collect();
                     t.sort_by_key(|x| x.1);
-                    t
+                    dec_ops(P as u32, fast_head(P as u32, &t), ops, None)
                 }
             }
         }
         "ncdec" => {
             match NonContiguousCategoricalDecoderModel::<usize, Pr, Vec<(Pr, usize)>, P>::from_symbols_and_floating_point_probabilities_fast(0..n, &probs, norm) {
-                Err(()) => return "rejected".into(),
-                Ok(m) => m
-                    .symbol_table()
-                    .map(|(s, c, p)| (s as u128, to_u128(c), to_u128(p.get())))
-                    .collect(),
+                Err(()) => "rejected".into(),
+                Ok(m) => {
+                    let table: Vec<Triple> = m.symbol_table().map(tr).collect();
+                    let dec = |q: u128| tr(m.quantile_function(from_u128(q)));
+                    dec_ops(P as u32, fast_head(P as u32, &table), ops, Some(&dec))
+                }
             }
         }
-        _ => return "bad-op".into(),
-    };
-    format!("ok {} mono=1 valid={}", show_triples(&table), b01(table_valid(P as u32, &table)))
+        _ => "bad-op".into(),
+    }
 }
 
-fn fast_lookup_line<F, Pr, const P: usize>(ctor: &str, tbl: &[u128], norm: Option<u128>) -> String
+fn fast_lookup_line<F, Pr, const P: usize>(ctor: &str, tbl: &[u128], norm: Option<u128>, ops: &[Option<LazyOp>]) -> String
 where
     F: Fl + AsPrimitive<Pr>,
     Pr: BitArray + AsPrimitive<usize> + Into<usize>,
@@ -159,28 +211,31 @@ where
     let probs: Vec<F> = tbl.iter().map(|&b| F::from_bits_u(b)).collect();
     let norm = norm.map(F::from_bits_u);
     let n = probs.len();
-    let table: Vec<Triple> = match ctor {
+    let tr = |x: (usize, Pr, Pr::NonZero)| -> Triple { (x.0 as u128, to_u128(x.1), to_u128(x.2.get())) };
+    match ctor {
         "lkc" => {
             match ContiguousLookupDecoderModel::<Pr, Vec<Pr>, Box<[Pr]>, P>::from_floating_point_probabilities_fast(&probs, norm) {
-                Err(()) => return "rejected".into(),
-                Ok(m) => m
-                    .symbol_table()
-                    .map(|(s, c, p)| (s as u128, to_u128(c), to_u128(p.get())))
-                    .collect(),
+                Err(()) => "rejected".into(),
+                Ok(m) => {
+                    let table: Vec<Triple> = m.symbol_table().map(tr).collect();
+                    // the decoder reads the lookup *table*, which `symbol_table()` does not show
+                    let dec = |q: u128| tr(m.quantile_function(from_u128(q)));
+                    dec_ops(P as u32, fast_head(P as u32, &table), ops, Some(&dec))
+                }
             }
         }
         "lknc" => {
             match NonContiguousLookupDecoderModel::<usize, Pr, Vec<(Pr, usize)>, Box<[Pr]>, P>::from_symbols_and_floating_point_probabilities_fast(0..n, &probs, norm) {
-                Err(()) => return "rejected".into(),
-                Ok(m) => m
-                    .symbol_table()
-                    .map(|(s, c, p)| (s as u128, to_u128(c), to_u128(p.get())))
-                    .collect(),
+                Err(()) => "rejected".into(),
+                Ok(m) => {
+                    let table: Vec<Triple> = m.symbol_table().map(tr).collect();
+                    let dec = |q: u128| tr(m.quantile_function(from_u128(q)));
+                    dec_ops(P as u32, fast_head(P as u32, &table), ops, Some(&dec))
+                }
             }
         }
-        _ => return "bad-op".into(),
-    };
-    format!("ok {} mono=1 valid={}", show_triples(&table), b01(table_valid(P as u32, &table)))
+        _ => "bad-op".into(),
+    }
 }
 
 /// weights produced by the `…_perfect` constructor (`None` = rejected)
@@ -359,8 +414,8 @@ macro_rules! perfect_combos {
 }
 pub const PERFECT_BP: &[(u32, &[u32])] = &[(8, &[3, 8]), (16, &[12, 16]), (32, &[24, 32])];
 
-fp_combos!(dispatch_fast, fast_line, (ctor: &str, tbl: &[u128], norm: Option<u128>) (ctor, tbl, norm) -> String);
-lookup_combos!(dispatch_fast_lookup, fast_lookup_line, (ctor: &str, tbl: &[u128], norm: Option<u128>) (ctor, tbl, norm) -> String);
+fp_combos!(dispatch_fast, fast_line, (ctor: &str, tbl: &[u128], norm: Option<u128>, ops: &[Option<LazyOp>]) (ctor, tbl, norm, ops) -> String);
+lookup_combos!(dispatch_fast_lookup, fast_lookup_line, (ctor: &str, tbl: &[u128], norm: Option<u128>, ops: &[Option<LazyOp>]) (ctor, tbl, norm, ops) -> String);
 fp_combos!(dispatch_lazy, lazy_line, (tbl: &[u128], norm: Option<u128>, ops: &[Option<LazyOp>]) (tbl, norm, ops) -> String);
 perfect_combos!(dispatch_perfect, perfect_line, (tbl: &[u128], w: &[u128]) (tbl, w) -> String);
 perfect_combos!(dispatch_perfect_weights, perfect_weights, (tbl: &[u128]) (tbl) -> Option<Vec<u128>>);
@@ -398,6 +453,14 @@ impl Base {
     }
     fn is_u(&self) -> bool {
         matches!(self, Base::Binom(..))
+    }
+    /// the CDF is nondecreasing with values in `[0, 1]` by construction (every library
+    /// distribution; a step function only if its levels are sorted and inside `[0, 1]`)
+    pub fn valid_by_construction(&self) -> bool {
+        match self {
+            Base::Step(_, cs) => cs.windows(2).all(|w| w[0] <= w[1]) && cs.iter().all(|c| (0.0..=1.0).contains(c)),
+            _ => true,
+        }
     }
     fn tokens(&self) -> String {
         let fl = |v: &Vec<f64>| show_list(v.iter().map(|x| x.to_bits() as u128));
@@ -690,7 +753,14 @@ where
                         prev = g;
                         s += 1;
                     }
-                    (format!("ok mono={} bound={}", b01(mono), b01(bound)), show_rec(&all))
+                    // inputs that are valid by construction: the harness asserts the constant, so
+                    // that a certificate failing in the model is a mismatch; otherwise (directed
+                    // invalid CDFs) the certificate is evaluated independently here
+                    if spec.base.valid_by_construction() {
+                        ("ok mono=1 bound=1".to_string(), show_rec(&all))
+                    } else {
+                        (format!("ok mono={} bound={}", b01(mono), b01(bound)), show_rec(&all))
+                    }
                 }
                 LOp::Enc(s) => {
                     if *s < tlo || *s > thi {
@@ -903,16 +973,17 @@ fn leaky_line_text(spec: &LeakySpec, ops: &[LOp], toks: &[(String, String)]) -> 
 pub fn run(segs: &[Vec<&str>]) -> String {
     let head = &segs[0];
     let r: Option<String> = (|| match head.as_slice() {
-        ["quant.fast", ctor, f, b, p, norm, tbl] if segs.len() == 1 => {
+        ["quant.fast", ctor, f, b, p, norm, tbl] => {
             let (b, p) = (parse_hex(b)? as u32, parse_hex(p)? as u32);
             let norm = parse_opt_hex(norm)?;
             let tbl = parse_list(tbl)?;
             if p == 0 || p > b {
                 return None;
             }
+            let ops: Vec<Option<LazyOp>> = segs[1..].iter().map(|s| parse_lazy_op(s)).collect();
             match *ctor {
-                "lkc" | "lknc" => dispatch_fast_lookup(f, b, p, ctor, &tbl, norm).or(Some("unsupported".into())),
-                _ => dispatch_fast(f, b, p, ctor, &tbl, norm).or(Some("unsupported".into())),
+                "lkc" | "lknc" => dispatch_fast_lookup(f, b, p, ctor, &tbl, norm, &ops).or(Some("unsupported".into())),
+                _ => dispatch_fast(f, b, p, ctor, &tbl, norm, &ops).or(Some("unsupported".into())),
             }
         }
         ["quant.perfect", f, b, p, tbl, w] if segs.len() == 1 => {
@@ -1092,7 +1163,27 @@ fn gen_fast_line(rng: &mut Rng) -> String {
     let mut v = gen_weights(rng, n, is32);
     corrupt(rng, &mut v);
     let norm = gen_norm(rng, &v, is32);
-    format!("quant.fast {} {} {:x} {:x} {} {}", ctor, if is32 { "f32" } else { "f64" }, b, p, norm, show_list(to_bits_list(&v, is32)))
+    let mut line = format!("quant.fast {} {} {:x} {:x} {} {}", ctor, if is32 { "f32" } else { "f64" }, b, p, norm, show_list(to_bits_list(&v, is32)));
+    // decoder queries: for the lookup models this is the only way the lookup *table* is compared
+    if ctor != "ncenc" && (lookup || rng.chance(1, 2)) {
+        let qmax = pow2(p) - 1;
+        for _ in 0..rng.next() % 4 {
+            let q = match rng.next() % 4 {
+                0 => 0,
+                1 => qmax,
+                2 => rng.below(n as u128 + 2).min(qmax),
+                _ => rng.below(qmax + 1),
+            };
+            line.push_str(&format!(" | dec {:x}", q));
+        }
+        if p <= 12 {
+            line.push_str(&format!(" | sweep 0 {:x} 1", qmax));
+        } else {
+            let stride = (qmax / 1021).max(1);
+            line.push_str(&format!(" | sweep {:x} {:x} {:x}", rng.below(stride), qmax, stride));
+        }
+    }
+    line
 }
 
 fn gen_perfect_line(rng: &mut Rng) -> String {
@@ -1153,13 +1244,13 @@ fn gen_lazy_line(rng: &mut Rng, sweep: bool) -> String {
             }
         }
     }
-    if sweep {
-        if p <= 12 {
-            line.push_str(&format!(" | sweep 0 {:x} 1", qmax));
-        } else {
-            let stride = (qmax / 997).max(1);
-            line.push_str(&format!(" | sweep {:x} {:x} {:x}", rng.below(stride), qmax, stride));
-        }
+    // TB-F2 is a statement about all quantiles: sweep them all when P <= 12 (and the table is
+    // small enough for the model's O(n) decoder), a stratified sample otherwise
+    if p <= 12 && (sweep || n <= 64) {
+        line.push_str(&format!(" | sweep 0 {:x} 1", qmax));
+    } else {
+        let stride = (qmax / if sweep { 997 } else { 251 }).max(1);
+        line.push_str(&format!(" | sweep {:x} {:x} {:x}", rng.below(stride), qmax, stride));
     }
     line
 }
@@ -1321,7 +1412,8 @@ fn gen_leaky_line(rng: &mut Rng, sweep: bool) -> Option<String> {
     let (tlo, thi) = sym_range(spec.sym);
     let mut ops: Vec<LOp> = Vec::new();
     let small = size <= 600;
-    if small && (sweep || rng.chance(1, 2)) {
+    if size <= 3000 {
+        // certificate evaluation (`GOk` over the whole support) on every line where it is affordable
         ops.push(LOp::Full);
     }
     if small && rng.chance(1, 2) {
@@ -1397,6 +1489,127 @@ fn gen_leaky_line(rng: &mut Rng, sweep: bool) -> Option<String> {
     Some(leaky_line_text(&spec, &all[..outs.len().min(all.len())], &outs))
 }
 
+/// a *slightly invalid* step-shaped CDF on a tiny support: decreasing by about one quantum
+/// between neighbouring symbols, leaving `[0, 1]`, NaN, or far outside — a `Distribution` is a
+/// safe trait, so the models must answer with the documented panics, never with UB (D25, D26)
+pub fn gen_badcdf_spec(rng: &mut Rng) -> LeakySpec {
+    let sym = *rng.pick(&["u8", "i8", "u16", "i16", "u32", "i32"]);
+    let (b, p) = pick_bp(rng, LEAKY_BP);
+    let (lo, hi) = sym_range(sym);
+    let total = pow2(p);
+    let size_m1 = (1 + rng.below(9)).min(total - 1) as i128;
+    let min = match rng.next() % 3 {
+        0 => lo,
+        1 => hi - size_m1,
+        _ => (if lo < 0 { -2 } else { 3 }).max(lo).min(hi - size_m1),
+    };
+    let max = min + size_m1;
+    let free = (total - 1 - size_m1 as u128) as f64;
+    let quantum = if free > 0.0 { 1.0 / free } else { 0.25 };
+    let unit = |r: &mut Rng| (r.next() >> 11) as f64 / (1u64 << 53) as f64;
+    // breakpoints at every half-integer of the support; levels start from a valid CDF
+    let xs: Vec<f64> = (0..size_m1).map(|i| (min + i) as f64 + 0.5).collect();
+    let mut cs: Vec<f64> = (0..=size_m1).map(|_| unit(rng)).collect();
+    cs.sort_by(|a, b| a.partial_cmp(b).unwrap());
+    cs[0] = 0.0;
+    let k = cs.len();
+    for _ in 0..1 + rng.next() % 2 {
+        let i = 1 + (rng.next() % (k as u64 - 1).max(1)) as usize % (k - 1).max(1);
+        let i = i.min(k - 1);
+        match rng.next() % 9 {
+            0 => cs[i] = cs[i - 1] - quantum * (0.6 + unit(rng)), // one quantum down
+            1 => cs[i] = cs[i - 1] - quantum * 3.0,
+            2 => cs[i] = 1.0 + quantum * (1.0 + 3.0 * unit(rng)), // just above 1
+            3 => cs[i] = 2.0,                                      // wraps the first right cumulative (D26)
+            4 => cs[i] = 1e9,
+            5 => cs[i] = -quantum,
+            6 => cs[i] = f64::NAN,
+            7 => cs[i] = *rng.pick(&[f64::INFINITY, f64::NEG_INFINITY, -1e9]),
+            _ => cs.swap(i, i - 1),
+        }
+    }
+    if rng.chance(1, 4) {
+        cs[1.min(k - 1)] = *rng.pick(&[2.0, 1e9, 1.0 + quantum]); // the D26 shape: cdf(min + 0.5) > 1
+    }
+    let hint = HintMode::ConstF(match rng.next() % 5 {
+        0 => min as f64,
+        1 => max as f64,
+        2 => 1e9,
+        3 => -1e9,
+        _ => (min + rng.below(size_m1 as u128 + 1) as i128) as f64,
+    });
+    LeakySpec { sym, b, p, min, max, base: Base::Step(xs, cs), hint }
+}
+
+/// the protocol lines of one invalid-CDF spec (each line stops at its first panic, so the
+/// operations are spread over several lines)
+fn badcdf_lines(rng: &mut Rng, spec: &LeakySpec) -> Vec<String> {
+    let qmax = pow2(spec.p) - 1;
+    let syms: Vec<i128> = (spec.min..=spec.max).collect();
+    let mut plans: Vec<Vec<LOp>> = vec![vec![LOp::Full, LOp::Table], vec![LOp::Full, if spec.p <= 8 { LOp::Sweep(0, qmax, 1) } else { let st = (qmax / 509).max(1); LOp::Sweep(rng.below(st), qmax, st) }]];
+    let mut e1 = vec![LOp::Full];
+    e1.extend(syms.iter().map(|&s| LOp::Enc(s)));
+    let mut e2 = vec![LOp::Full];
+    e2.extend(syms.iter().rev().map(|&s| LOp::Enc(s)));
+    plans.push(e1);
+    plans.push(e2);
+    let mut d = vec![LOp::Full];
+    for _ in 0..4 {
+        d.push(LOp::Dec(match rng.next() % 4 {
+            0 => 0,
+            1 => qmax,
+            2 => rng.below(12).min(qmax),
+            _ => rng.below(qmax + 1),
+        }));
+    }
+    plans.push(d);
+    let mut out = Vec::new();
+    for ops in plans {
+        let oo: Vec<Option<LOp>> = ops.iter().cloned().map(Some).collect();
+        if let Some((_, outs)) = dispatch_leaky(spec, &oo) {
+            out.push(leaky_line_text(spec, &ops[..outs.len().min(ops.len())], &outs));
+        }
+    }
+    out
+}
+
+/// C20 for invalid CDFs: every operation either answers or panics cleanly — the process
+/// survives (std's unsafe-precondition checks would abort it)
+fn oracle_badcdf(rng: &mut Rng, rep: &mut Report) {
+    let spec = gen_badcdf_spec(rng);
+    let qmax = pow2(spec.p) - 1;
+    let mut ops: Vec<LOp> = vec![LOp::Full, LOp::Table];
+    ops.extend((spec.min..=spec.max).map(LOp::Enc));
+    let hints = [spec.hint, HintMode::ConstF(spec.min as f64), HintMode::ConstF(spec.max as f64), HintMode::ConstF(f64::NAN)];
+    for h in hints {
+        let mut sp = spec.clone();
+        sp.hint = h;
+        let mut all: Vec<LOp> = if matches!(h, HintMode::ConstF(x) if x.is_nan()) { ops.clone() } else { vec![] };
+        let step = (qmax / 257).max(1);
+        let mut q = 0;
+        while q <= qmax {
+            all.push(LOp::Dec(q));
+            q += step;
+        }
+        all.push(LOp::Dec(qmax));
+        // one op per call: a panic ends a protocol history, the oracle wants every op exercised
+        for op in all {
+            let r = dispatch_leaky(&sp, &[Some(op.clone())]);
+            rep.eval("C20");
+            match r {
+                Some((_, outs)) => {
+                    let o = outs.first().map(|x| x.0.as_str()).unwrap_or("");
+                    rep.count(if o.starts_with("panic") { "badcdf.panic" } else { "badcdf.answer" });
+                    if o == "panic:shift" {
+                        rep.fail("C20", format!("{} # {:?} -> {}", leaky_line_text(&sp, &[], &[]), op, o));
+                    }
+                }
+                None => rep.fail("C20", format!("{} # not dispatched", leaky_line_text(&sp, &[], &[]))),
+            }
+        }
+    }
+}
+
 pub fn gen(rng: &mut Rng, tier: &str, out: &mut Vec<String>) {
     let k = if tier == "thorough" { 20 } else { 1 };
     // documented / design reproducers first
@@ -1424,6 +1637,14 @@ pub fn gen(rng: &mut Rng, tier: &str, out: &mut Vec<String>) {
     out.extend(fixed(d16a, vec![LOp::Full, LOp::Dec(828), LOp::Sweep(0, 4095, 1)]));
     let d16b = LeakySpec { sym: "i8", b: 16, p: 12, min: -128, max: 127, base: Base::Gauss(0.0, 60.0), hint: HintMode::ConstF(127.0) };
     out.extend(fixed(d16b, vec![LOp::Full, LOp::Dec(208), LOp::Sweep(0, 4095, 1)]));
+    // D25 / D26: invalid CDFs must end in the documented panic, never in `NonZero::new_unchecked(0)`
+    let d25 = LeakySpec { sym: "u8", b: 16, p: 12, min: 0, max: 3, base: Base::Step(vec![0.5, 1.5, 2.5], vec![0.0, 0.5, f64::from_bits(0x3fdffdff7fdff7fe), 0.9]), hint: HintMode::ConstF(0.0) };
+    out.extend(fixed(d25.clone(), vec![LOp::Full, LOp::Table]));
+    out.extend(fixed(d25, vec![LOp::Full, LOp::Enc(0), LOp::Enc(1), LOp::Enc(2)]));
+    let d26a = LeakySpec { sym: "u8", b: 8, p: 8, min: 0, max: 3, base: Base::Step(vec![0.5], vec![0.0, 2.0]), hint: HintMode::ConstF(0.0) };
+    out.extend(fixed(d26a, vec![LOp::Full, LOp::Dec(5)]));
+    let d26b = LeakySpec { sym: "u8", b: 16, p: 12, min: 0, max: 3, base: Base::Step(vec![0.5], vec![0.0, 1e9]), hint: HintMode::ConstF(-1e9) };
+    out.extend(fixed(d26b, vec![LOp::Full, LOp::Dec(5)]));
     let d16c = LeakySpec { sym: "i8", b: 16, p: 12, min: -128, max: 127, base: Base::Gauss(0.0, 60.0), hint: HintMode::ConstF(-128.0) };
     out.extend(fixed(d16c, vec![LOp::Full, LOp::Dec(3881), LOp::Sweep(0, 4095, 1)]));
     // directed invalid-argument classes: the model answers `rejected` for the invalid ones, so an
@@ -1455,7 +1676,8 @@ pub fn gen(rng: &mut Rng, tier: &str, out: &mut Vec<String>) {
                         let tbl = show_list(to_bits_list(&v, is32));
                         let ctor = if idx % 2 == 0 { "lkc" } else { "lknc" };
                         idx += 1;
-                        out.push(format!("quant.fast {} {} {:x} {:x} {} {}", ctor, f, b, p, norm_token(norm, is32), tbl));
+                        let qmax = pow2(*p) - 1;
+                        out.push(format!("quant.fast {} {} {:x} {:x} {} {} | dec 0 | dec {:x} | sweep 0 {:x} {:x}", ctor, f, b, p, norm_token(norm, is32), tbl, qmax, qmax, (qmax / 4095).max(1)));
                     }
                 }
                 for (b, ps) in PERFECT_BP {
@@ -1489,7 +1711,11 @@ pub fn gen(rng: &mut Rng, tier: &str, out: &mut Vec<String>) {
             out.push(l);
         }
     }
-    for _ in 0..150 * k {
+    for _ in 0..80 * k {
+        let spec = gen_badcdf_spec(rng);
+        out.extend(badcdf_lines(rng, &spec));
+    }
+    for _ in 0..90 * k {
         if let Some(l) = gen_leaky_line(rng, true) {
             out.push(l);
         }
@@ -2463,6 +2689,98 @@ where
     }
 }
 
+/// the same diagnostics evaluated by the crate in `f32` (models with `Probability: Into<f32>`)
+fn oracle_diag_model_f32<'m, M, const P: usize>(model: &'m M, q: &[f64], replay: &str, rep: &mut Report)
+where
+    M: IterableEntropyModel<'m, P>,
+    M::Probability: Into<f32>,
+    f32: From<M::Probability>,
+{
+    let table: Vec<(u128, u128)> = model.symbol_table().map(|(_, c, p)| (to_u128(c), to_u128(p.get()))).collect();
+    let probs: Vec<u128> = table.iter().map(|x| x.1).collect();
+    let n = probs.len();
+    // the reference distribution as the crate sees it: rounded to `f32`
+    let q32: Vec<f32> = q.iter().map(|&x| x as f32).collect();
+    let qd: Vec<f64> = q32.iter().map(|&x| x as f64).collect();
+    let tb = textbook(P as u32, &probs, &qd);
+    let eps = f32::EPSILON as f64;
+    let tol = |mag: f64| 4.0 * (n as f64 + 8.0) * eps * (mag + 1.0);
+    let mut check = |name: &str, got: f32, want: f64, mag: f64, rep: &mut Report| {
+        rep.eval("C18");
+        let err = (got as f64 - want).abs();
+        if !(err <= tol(mag)) {
+            rep.fail("C18", format!("{} # f32 {}: crate {:e} textbook {:e} |diff| {:e} > tol {:e}", replay, name, got, want, err, tol(mag)));
+        }
+    };
+    check("entropy_base2", model.entropy_base2::<f32>(), tb.entropy, tb.mag[0] + P as f64, rep);
+    check("cross_entropy_base2", model.cross_entropy_base2::<f32>(q32.iter().copied()), tb.cross, tb.mag[1], rep);
+    check("kl_divergence_base2", model.kl_divergence_base2::<f32>(q32.iter().copied()), tb.kl, tb.mag[3], rep);
+    if q32.iter().all(|&x| x > 0.0) {
+        check("reverse_cross_entropy_base2", model.reverse_cross_entropy_base2::<f32>(q32.iter().copied()), tb.rev_cross, tb.mag[2], rep);
+        check("reverse_kl_divergence_base2", model.reverse_kl_divergence_base2::<f32>(q32.iter().copied()), tb.rev_kl, tb.mag[4], rep);
+    }
+    let total = 2f32.powi(P as i32);
+    let fp: Vec<(f32, f32)> = model.floating_point_symbol_table::<f32>().map(|(_, c, p)| (c, p)).collect();
+    rep.eval("C18");
+    if fp.len() != n || fp.iter().zip(table.iter()).any(|(a, b)| a.0 != b.0 as f32 / total || a.1 != b.1 as f32 / total) {
+        rep.fail("C18", format!("{} # f32 floating_point_symbol_table is not cumulative/2^P, probability/2^P", replay));
+    }
+}
+
+/// `EncoderModel::floating_point_probability`: exactly `probability / 2^P`, zero outside the support
+fn oracle_fp_probability<M, const P: usize>(model: &M, table: &[(usize, u128)], outside: &[usize], replay: &str, rep: &mut Report)
+where
+    M: EncoderModel<P, Symbol = usize>,
+    M::Probability: Into<f64>,
+{
+    let total = 2f64.powi(P as i32);
+    for &(s, p) in table {
+        rep.eval("C18");
+        let got: f64 = model.floating_point_probability::<f64>(s);
+        if got != p as f64 / total {
+            rep.fail("C18", format!("{} # floating_point_probability({}) = {:e}, expected {}/2^{}", replay, s, got, p, P));
+            return;
+        }
+    }
+    for &s in outside {
+        rep.eval("C18");
+        if model.floating_point_probability::<f64>(s) != 0.0 {
+            rep.fail("C18", format!("{} # floating_point_probability({}) nonzero outside the support", replay, s));
+        }
+    }
+}
+
+/// the diagnostics *overrides* of the non-contiguous models (own implementations of
+/// `entropy_base2` / `floating_point_symbol_table`; the encoder model sums in hash-map order)
+fn oracle_diag_noncontiguous(rng: &mut Rng, w: &[f64], q: &[f64], rep: &mut Report) {
+    let n = w.len();
+    let tbl = show_list(w.iter().map(|x| x.to_bits() as u128));
+    let replay = format!("quant.fast ncdec f64 10 c - {} # q={:?}", tbl, q);
+    let dec = NonContiguousCategoricalDecoderModel::<usize, u16, Vec<(u16, usize)>, 12>::from_symbols_and_floating_point_probabilities_fast(0..n, w, None);
+    let enc = NonContiguousCategoricalEncoderModel::<usize, u16, 12>::from_symbols_and_floating_point_probabilities_fast(0..n, w, None);
+    if let (Ok(dec), Ok(enc)) = (dec, enc) {
+        oracle_diag_model::<_, 12>(&dec, q, &replay, rep);
+        oracle_diag_model_f32::<_, 12>(&dec, q, &replay, rep);
+        let probs: Vec<u128> = dec.symbol_table().map(|(_, _, p)| p.get() as u128).collect();
+        let tb = textbook(12, &probs, q);
+        let tol64 = 4.0 * (n as f64 + 8.0) * f64::EPSILON * (tb.mag[0] + 13.0);
+        let tol32 = 4.0 * (n as f64 + 8.0) * f32::EPSILON as f64 * (tb.mag[0] + 13.0);
+        rep.eval("C18");
+        let e64: f64 = enc.entropy_base2::<f64>();
+        if !((e64 - tb.entropy).abs() <= tol64) {
+            rep.fail("C18", format!("{} # NonContiguousCategoricalEncoderModel::entropy_base2::<f64> {:e} textbook {:e}", replay, e64, tb.entropy));
+        }
+        rep.eval("C18");
+        let e32: f32 = enc.entropy_base2::<f32>();
+        if !((e32 as f64 - tb.entropy).abs() <= tol32) {
+            rep.fail("C18", format!("{} # NonContiguousCategoricalEncoderModel::entropy_base2::<f32> {:e} textbook {:e}", replay, e32, tb.entropy));
+        }
+        let t: Vec<(usize, u128)> = probs.iter().enumerate().map(|(s, &p)| (s, p)).collect();
+        oracle_fp_probability::<_, 12>(&enc, &t, &[n, n + 1, usize::MAX], &replay, rep);
+    }
+    let _ = rng;
+}
+
 fn gen_q(rng: &mut Rng, n: usize, with_zeros: bool) -> Vec<f64> {
     let mut v = gen_weights(rng, n, false);
     for x in v.iter_mut() {
@@ -2501,8 +2819,13 @@ fn oracle_diag(rng: &mut Rng, rep: &mut Report) {
         }
         1 => {
             if let Ok(m) = ContiguousCategoricalEntropyModel::<u16, Vec<u16>, 12>::from_floating_point_probabilities_fast(&w, None) {
-                oracle_diag_model::<_, 12>(&m, &q, &format!("quant.fast cont f64 10 c - {} # q={:?}", tbl, q), rep);
+                let replay = format!("quant.fast cont f64 10 c - {} # q={:?}", tbl, q);
+                oracle_diag_model::<_, 12>(&m, &q, &replay, rep);
+                oracle_diag_model_f32::<_, 12>(&m, &q, &replay, rep);
+                let t: Vec<(usize, u128)> = m.symbol_table().map(|(s, _, p)| (s, p.get() as u128)).collect();
+                oracle_fp_probability::<_, 12>(&m, &t, &[n, n + 7, usize::MAX], &replay, rep);
             }
+            oracle_diag_noncontiguous(rng, &w, &q, rep);
         }
         _ => {
             if let Ok(m) = ContiguousCategoricalEntropyModel::<u32, Vec<u32>, 32>::from_floating_point_probabilities_fast(&w, None) {
@@ -2567,6 +2890,9 @@ pub fn oracle(rng: &mut Rng, tier: &str, rep: &mut Report) {
         // mostly small supports (every quantile × every hint), some huge ones
         let spec = gen_leaky_spec(rng, if i % 8 == 0 { 1 << 20 } else { 400 });
         dispatch_leaky_oracle(&spec, rng, rep);
+    }
+    for _ in 0..60 * k {
+        oracle_badcdf(rng, rep);
     }
     for _ in 0..1500 * k {
         oracle_diag(rng, rep);
